@@ -10,7 +10,8 @@ THEOREMS = [
     "Typedpy.C17.convert_version", "Typedpy.C17.convert_version_max", "Typedpy.C17.convert_version_law",
     "Typedpy.C17.convert_is_upgrade", "Typedpy.C17.convert_compose", "Typedpy.C17.convert_compose_error",
     "Typedpy.C17.convert_latest_id", "Typedpy.C17.convert_idempotent", "Typedpy.C17.convert_pure",
-    "Typedpy.C17.convert_empty_mapping", "Typedpy.C17.convert_frame",
+    "Typedpy.C17.convert_empty_mapping", "Typedpy.C17.convert_frame", "Typedpy.C17.convert_deleted_absent",
+    "Typedpy.C17.convert_constant_set",
     "Typedpy.C17.versioned_deser_equiv", "Typedpy.C17.versioned_deser_result", "Typedpy.C17.new_instance_latest",
     "Typedpy.C17.version_partial", "Typedpy.C17.compose_partial", "Typedpy.C17.versionless_off_by_one",
     "Typedpy.C17.version_counterexample_versionless", "Typedpy.C17.version_counterexample_clobber",
